@@ -110,8 +110,10 @@ class Application:
     def receive_answer(self, message: Message):
         waiting_id = (message.header.hop_by_hop_identifier,
                       message.header.end_to_end_identifier)
-        if waiting_id in self._answer_waiting:
-            waiting = self._answer_waiting[waiting_id]
+        # the caller of `send_request` removes its entry when it times out;
+        # whichever thread takes the entry out decides where the answer goes
+        waiting = self._answer_waiting.pop(waiting_id, None)
+        if waiting is not None:
             waiting.answer = message
             waiting.event.set()
         else:
@@ -216,7 +218,11 @@ class Application:
 
         try:
             if waiting.event.wait(timeout) is not True:
-                raise TimeoutError("Timed out waiting for answer")
+                if self._answer_waiting.pop(waiting_id, None) is not None:
+                    raise TimeoutError("Timed out waiting for answer")
+                # the answer came in just as the timeout expired and is
+                # being handed over
+                waiting.event.wait()
 
             if waiting.answer is None:
                 raise EmptyAnswer("Response is None")
@@ -225,7 +231,7 @@ class Application:
         except Exception:
             raise
         finally:
-            del self._answer_waiting[waiting_id]
+            self._answer_waiting.pop(waiting_id, None)
 
     def start(self):
         logger.info(f"{self} application started")
